@@ -1,12 +1,18 @@
 import QibProofs.Lemmas.VqeCluster
 import QibProofs.Lemmas.VqePauli
+import QibProofs.Lemmas.VqeNumber
 /-!
 C20 — VQE energies are true expectation values of a unitary ansatz.
 
 Property theorems only; proofs are short uses of `Lemmas/VqeExpect.lean` (quadratic form, Rayleigh bounds through
 Mathlib's spectral theorem), `Lemmas/VqeQucc.lean` (skew-adjoint exponentials, graded matrices, sectors),
-`Lemmas/VqeBridge.lean` (executable arrays ↔ Mathlib) and `Lemmas/VqeCluster.lean` (the executable cluster operator is
-number balanced). Two layers:
+`Lemmas/VqeBridge.lean` (executable arrays ↔ Mathlib), `Lemmas/VqeCluster.lean` (the executable cluster operator is
+number balanced), `Lemmas/VqePauli.lean` (Pauli operators, C09 denotation) and `Lemmas/VqeNumber.lean` (`N = Σ a†a`).
+The shape of the code that the model follows (conjugated factor / product order of the expectation, accepted settings,
+operator kinds and order of the cluster terms, sign and conjugation of the exponent, `num_parameters`) is
+`QibGen/VqeTables.lean`, regenerated from the source by `harness/translators/vqe.py` on every run; the bridging
+facts over these tables (`cj_left`, `cj_right`, `adjPart_eq`, `genSign_toC`, `branches_balanced`, `C20_source_tables`)
+are re-checked with the theorems. Two layers:
 
 * **general statements** over ℂ for *all* state vectors `ψ : n → ℂ`, all matrices `P : Matrix n n ℂ` on an arbitrary
   finite index type `n`, all skew generators – these are the property itself;
@@ -240,6 +246,10 @@ end Ansatz
 /-- the number operator of the model is the diagonal matrix of the particle numbers `wt L b` -/
 theorem C20_numberOp_model (L : ℕ) :
     (numberOp L).toM (2 ^ L) = diagonal fun b => ((wt L b : ℤ) : ℂ) := toM_numberOp L
+
+/-- the model's `N` is the particle-number operator of the model's own Jordan–Wigner ladder matrices: `N = Σᵢ a†ᵢ aᵢ` -/
+theorem C20_numberOp_is_sum (L : ℕ) :
+    (numberOp L).toM (2 ^ L) = ∑ i : Fin L, (cre L i).toM (2 ^ L) * (ann L i).toM (2 ^ L) := numberOp_eq_sum L
 
 /-- ladder matrices: `a†ᵢ` raises and `aᵢ = (a†ᵢ)ᴴ` lowers the particle number by exactly one (`i < L`) -/
 theorem C20_ladder_graded (L i : ℕ) (hi : i < L) :
